@@ -15,7 +15,7 @@ use std::collections::{HashMap, HashSet};
 pub fn def() -> PropDef {
     PropDef {
         id: "C08",
-        rule: "names: every 4-byte string over an alphabet (quick: 75 symbols = 31.6 M strings; thorough: all 128^4 ASCII) plus all strings of length 0-3 and 5 over 24 symbols, length 6 over 12 symbols and random UTF-8, each through all 10 bank-name parsers and 3 board-name parsers and compared with the reference grammar (accept set, meaning, injectivity); maps: every run number 0..=20000 plus 2^32-1, 2^32-2, powers of two +-1 and random u32: wire map = bijection 8x32 -> 256 or all-Err below 2941, PWB map = exactly 64 installed boards on the 64 cells or all-Err below 4418, (board,chip,channel) -> pad a bijection onto 32x576 (checked in full for every run number in thorough; in quick for every distinct board-placement fingerprint and both sides of every change); simulation run == run 5000 element-wise; geometry: wire w belongs to pad column floor(phi(w)/(2pi/32)) and each column owns exactly its 8 wires; non-trivial = accepted names, names at Hamming distance 1 from an accepted name, run numbers within +-1 of a dispatch boundary; distinct by value",
+        rule: "names: every 4-byte string over an alphabet (quick: 75 symbols = 31.6 M strings; thorough: all 128^4 ASCII) plus all strings of length 0-3 and 5 over 24 symbols, length 6 over 12 symbols and random UTF-8, each through all 10 bank-name parsers and 3 board-name parsers and compared with the reference grammar (accept set, meaning, injectivity); maps: every run number 0..=20000 plus 2^32-1, 2^32-2, powers of two +-1 and random u32: wire map = bijection 8x32 -> 256 or all-Err below 2941, PWB map = exactly 64 installed boards on the 64 cells or all-Err below 4418, (board,chip,channel) -> pad a bijection onto 32x576 (checked in full for every run number in thorough; in quick for every distinct board-placement fingerprint and both sides of every change); simulation run == run 5000 element-wise; purity of the maps: generated histories of 2-40 wire/PWB/pad lookups over 1-3 boards and 2-4 run numbers (16 boundary run numbers) on one thread and a board-major sweep (every board, every pad, all 16 run numbers back to back, both directions), every answer equal to the answer of the same lookup in a run-major sweep made on a fresh thread; geometry: wire w belongs to pad column floor(phi(w)/(2pi/32)) and each column owns exactly its 8 wires; non-trivial = accepted names, names at Hamming distance 1 from an accepted name, run numbers within +-1 of a dispatch boundary, histories in which the same board is asked at two different run numbers back to back; distinct by value",
         assumptions: &["golden board tables in oracles::boards are the documented ones; the library tables are cross-checked against them in every direction"],
         run,
         replay,
@@ -319,6 +319,144 @@ fn boards(r: &Run) {
     }
 }
 
+
+// ------------------------------------------------------------------ call histories
+//
+// The maps are pure functions of their arguments: the answer to a lookup may
+// not depend on which lookups were made before it.  The sweeps above are
+// run-major (all boards of one run, then the next run), so a value remembered
+// from an earlier call under too coarse a key would go unnoticed there.  Here
+// a generated history of lookups is executed on one thread and every answer is
+// compared with the answer the same query got in the canonical run-major sweep.
+
+const HISTORY_RUNS: [u32; 16] = [0, 2940, 2941, 2723, 2724, 4417, 4418, 4419, 5000, 10417, 10418, 10419, 20000, 7026, u32::MAX - 1, u32::MAX];
+
+#[derive(Clone, Debug, serde::Serialize, serde::Deserialize)]
+pub enum Lookup {
+    Wire { run: u8, board: u8, channel: u8 },
+    Pwb { run: u8, board: u8 },
+    Pad { run: u8, board: u8, chip: u8, channel: u8 },
+}
+
+type RefTables = (Vec<Vec<String>>, Vec<Vec<String>>, Vec<Vec<String>>);
+
+fn wire_q(run: u32, b: usize, c: u8) -> String {
+    format!("{:?}", TpcWirePosition::try_new(run, a16(b), Adc32ChannelId::try_from(c).unwrap()).map(usize::from).map_err(|e| std::mem::discriminant(&e)))
+}
+fn pwb_q(run: u32, b: usize) -> String {
+    format!("{:?}", TpcPwbPosition::try_new(run, pwb(b)).map_err(|e| std::mem::discriminant(&e)))
+}
+fn pad_q(run: u32, b: usize, chip: u8, ch: u16) -> String {
+    format!(
+        "{:?}",
+        TpcPadPosition::try_new(run, pwb(b), AfterId::try_from(chip).unwrap(), PadChannelId::try_from(ch).unwrap()).map(|p| (usize::from(p.column), usize::from(p.row))).map_err(|e| format!("{e}"))
+    )
+}
+
+fn reference_tables() -> &'static RefTables {
+    static T: std::sync::OnceLock<RefTables> = std::sync::OnceLock::new();
+    T.get_or_init(|| {
+        // canonical order, on a thread of its own: run-major, boards ascending
+        std::thread::spawn(|| {
+            let mut wires = Vec::new();
+            let mut pwbs = Vec::new();
+            let mut pads = Vec::new();
+            for &run in &HISTORY_RUNS {
+                wires.push((0..256usize).map(|i| wire_q(run, i / 32, (i % 32) as u8)).collect());
+                pwbs.push((0..71usize).map(|b| pwb_q(run, b)).collect());
+                pads.push((0..71 * 288usize).map(|i| pad_q(run, i / 288, ((i % 288) / 72) as u8, (i % 72) as u16 + 1)).collect());
+            }
+            (wires, pwbs, pads)
+        })
+        .join()
+        .expect("reference sweep panicked")
+    })
+}
+
+fn lookups() -> impl proptest::strategy::Strategy<Value = Vec<Lookup>> {
+    use proptest::prelude::*;
+    // few boards and few runs per history, so that the same board meets different runs back to back
+    (proptest::collection::vec(0u8..71, 1..4), proptest::collection::vec(0u8..16, 2..5)).prop_flat_map(|(boards, runs)| {
+        let (nb, nr) = (boards.len(), runs.len());
+        proptest::collection::vec((0u8..3, 0..nb, 0..nr, 0u8..4, 0u8..72), 2..40).prop_map(move |v| {
+            v.into_iter()
+                .map(|(k, b, r, chip, ch)| match k {
+                    0 => Lookup::Wire { run: runs[r], board: boards[b] % 8, channel: ch % 32 },
+                    1 => Lookup::Pwb { run: runs[r], board: boards[b] },
+                    _ => Lookup::Pad { run: runs[r], board: boards[b], chip, channel: ch },
+                })
+                .collect()
+        })
+    })
+}
+
+fn check_history(h: &Vec<Lookup>, ev: &mut Ev) -> Outcome {
+    // every history on a thread of its own: whatever a thread remembers from
+    // earlier lookups starts empty, so a failing history is self-contained
+    let tables = reference_tables();
+    std::thread::scope(|s| s.spawn(|| history_on_this_thread(h, ev, tables)).join()).unwrap_or_else(|_| Err(Fail::new("panic@map-lookup", "a map lookup panicked".to_string())))
+}
+
+fn history_on_this_thread(h: &Vec<Lookup>, ev: &mut Ev, tables: &RefTables) -> Outcome {
+    let (wires, pwbs, pads) = tables;
+    let mut prev: Option<(u8, u8)> = None;
+    let mut crossed = false;
+    for (i, q) in h.iter().enumerate() {
+        ev.eval();
+        let (got, want, run, board) = match *q {
+            Lookup::Wire { run, board, channel } => (wire_q(HISTORY_RUNS[run as usize], board as usize, channel), &wires[run as usize][board as usize * 32 + channel as usize], run, board),
+            Lookup::Pwb { run, board } => (pwb_q(HISTORY_RUNS[run as usize], board as usize), &pwbs[run as usize][board as usize], run, board),
+            Lookup::Pad { run, board, chip, channel } => {
+                (pad_q(HISTORY_RUNS[run as usize], board as usize, chip, channel as u16 + 1), &pads[run as usize][board as usize * 288 + chip as usize * 72 + channel as usize], run, board)
+            }
+        };
+        ensure!(&got == want, "map-depends-on-history", "lookup {i} of the history ({q:?}, run number {}) answers {got}, the same lookup in a run-major sweep answers {want}", HISTORY_RUNS[run as usize]);
+        if let Some((pr, pb)) = prev {
+            if pb == board && pr != run {
+                crossed = true;
+            }
+        }
+        prev = Some((run, board));
+    }
+    if crossed {
+        ev.nontrivial(fingerprint(&format!("{h:?}")));
+        ev.label("history:same-board-different-run-back-to-back");
+    }
+    ev.sample(|| format!("history of {} lookups, first {:?}", h.len(), h.first()));
+    Ok(())
+}
+
+/// Board-major sweep: for every board, every (chip, channel), all history runs back to back.
+fn board_major(r: &Run) {
+    r.enumerate("maps_board_major", 71, |b, ev| {
+        let (wires, pwbs, pads) = reference_tables();
+        let b = b as usize;
+        for order in 0..2 {
+            for cell in 0..288usize {
+                for k in 0..HISTORY_RUNS.len() {
+                    let ri = if order == 0 { k } else { HISTORY_RUNS.len() - 1 - k };
+                    ev.eval();
+                    let got = pad_q(HISTORY_RUNS[ri], b, (cell / 72) as u8, (cell % 72) as u16 + 1);
+                    ensure!(got == pads[ri][b * 288 + cell], "map-depends-on-history", "board {} chip {} channel {} at run {} answers {got} in a board-major sweep and {} in a run-major sweep", PADWING_BOARDS[b].0, cell / 72, cell % 72 + 1, HISTORY_RUNS[ri], pads[ri][b * 288 + cell]);
+                }
+            }
+            for k in 0..HISTORY_RUNS.len() {
+                let ri = if order == 0 { k } else { HISTORY_RUNS.len() - 1 - k };
+                let got = pwb_q(HISTORY_RUNS[ri], b);
+                ensure!(got == pwbs[ri][b], "map-depends-on-history", "board {} at run {} answers {got} in a board-major sweep and {} in a run-major sweep", PADWING_BOARDS[b].0, HISTORY_RUNS[ri], pwbs[ri][b]);
+                if b < 8 {
+                    for c in 0..32u8 {
+                        let got = wire_q(HISTORY_RUNS[ri], b, c);
+                        ensure!(got == wires[ri][b * 32 + c as usize], "map-depends-on-history", "Alpha16 board {} channel {c} at run {} answers {got} in a board-major sweep and {} in a run-major sweep", ALPHA16_BOARDS[b].0, HISTORY_RUNS[ri], wires[ri][b * 32 + c as usize]);
+                    }
+                }
+            }
+        }
+        ev.nontrivial(fingerprint(&("board-major", b)));
+        Ok(())
+    });
+}
+
 fn nth_string(alpha: &[u8], len: u32, mut i: u64) -> String {
     let k = alpha.len() as u64;
     let mut s = Vec::with_capacity(len as usize);
@@ -409,6 +547,8 @@ fn run(r: &Run) {
     }
     sim_equals_5000(r);
     geometry(r);
+    board_major(r);
+    r.prop("maps_call_histories", r.tier.pick(20_000, 400_000), lookups, check_history);
 }
 
 fn replay(r: &Run, check: &str, case: &Value) -> Option<Outcome> {
@@ -418,6 +558,8 @@ fn replay(r: &Run, check: &str, case: &Value) -> Option<Outcome> {
         "names_utf8" => replay_case(case, |s: &String, ev| check_name(s, ev)),
         "runs_0_20000" => check_run(i as u32, true, &mut ev),
         "names_injective" => check_name(case.as_str().unwrap_or(""), &mut ev),
+        "maps_call_histories" => replay_case(case, check_history),
+        "maps_board_major" => return None,
         _ => {
             let _ = r;
             return None;
